@@ -5,6 +5,7 @@ import (
 	"math/rand"
 	"strconv"
 	"strings"
+	"time"
 
 	"golang.org/x/net/http2"
 
@@ -473,6 +474,14 @@ func runRecvS(c *recvCase) *finding {
 		if f := r.fence(); f != nil {
 			return f
 		}
+		// a stream-level WINDOW_UPDATE is a frame of its stream, not a control frame: the PING ACK of a fence may
+		// overtake it in the peer's write scheduler. Give queued updates a bounded time to be written.
+		for i := 0; i < 100 && l.Stream(u.sid).ImplGrants < padFlow-creditBound; i++ {
+			time.Sleep(50 * time.Millisecond)
+			if f := r.fence(); f != nil {
+				return f
+			}
+		}
 		st := l.Stream(u.sid)
 		wu0, _ := l.ConnCredit()
 		retConn := wu0 - (r.advConn - 65535)
@@ -841,6 +850,14 @@ func runRecvT(c *recvCase) *finding {
 		}
 		if f := r.fence(); f != nil {
 			return f
+		}
+		// a stream-level WINDOW_UPDATE is a frame of its stream, not a control frame: the PING ACK of a fence may
+		// overtake it in the peer's write scheduler. Give queued updates a bounded time to be written.
+		for i := 0; i < 100 && l.Stream(u.sid).ImplGrants < padFlow-creditBound; i++ {
+			time.Sleep(50 * time.Millisecond)
+			if f := r.fence(); f != nil {
+				return f
+			}
 		}
 		st := l.Stream(u.sid)
 		wu0, _ := l.ConnCredit()
